@@ -280,6 +280,16 @@ struct Spec {
 	wild: bool,
 }
 
+/// the compressor's gain slope in dB per dB over the threshold: `1/ratio − 1`, and 0 (dynamics unchanged, like
+/// a ratio of 1) for a ratio of exactly 0 — the repaired behaviour (`1.0 / 0.0` used to give NaN output)
+fn comp_slope(ratio: f64) -> f64 {
+	if ratio == 0.0 {
+		0.0
+	} else {
+		1.0 / ratio - 1.0
+	}
+}
+
 fn fixed_of(s: &str, is32: bool, isdur: bool) -> Option<f64> {
 	let rest = s.strip_prefix("fix:")?;
 	Some(if isdur {
@@ -576,8 +586,8 @@ impl Run {
 				let max_over = (20.0 * sp.scale.max(1.0).log10() - sp.p("threshold")).max(0.0) + 1.0;
 				let one_minus_speed = if tau == 0.0 { 1.0 } else { 1.0 - (-dt / tau).exp() };
 				let env_tol = 4.0 * max_over / 8388608.0 / one_minus_speed + 1e-9;
-				let rel = 10f64.powf(env_tol * (1.0 / ratio - 1.0).abs() / 20.0) - 1.0 + 1e-5;
-				if ratio != 0.0 && rel <= 0.02 {
+				let rel = 10f64.powf(env_tol * comp_slope(ratio).abs() / 20.0) - 1.0 + 1e-5;
+				if rel <= 0.02 {
 					Some((Cmp::Rel(rel), (30.0 * tau / dt).ceil() as usize + 1))
 				} else {
 					None
@@ -1025,7 +1035,7 @@ pub fn run(ops: &[String]) -> Vec<String> {
 								let tau = sp.p("attack").max(sp.p("release"));
 								if sp.p("mix") >= 1.0 && (tau == 0.0 || t_total / tau >= 30.0) && (over > 0.5 || level - thr < -0.5) {
 									evald(out, if over > 0.0 { "comp_steady_state_above" } else { "comp_steady_state_below" });
-									let gr = over * (1.0 / ratio - 1.0);
+									let gr = over * comp_slope(ratio);
 									let e = a * 10f64.powf(gr / 20.0) * 10f64.powf(sp.p("makeup") / 20.0);
 									let t = 1e-3 * e.abs() + 1e-11 * sp.scale;
 									if !close(last.left, e as f32, t) || !close(last.right, -e as f32, t) {
@@ -1051,7 +1061,7 @@ pub fn run(ops: &[String]) -> Vec<String> {
 							let n = m.len();
 							for i in [0, n / 4, n / 2, n - 1] {
 								let env = over * (1.0 - sp_a.powi(i as i32 + 1));
-								let e = a * 10f64.powf(env * (1.0 / ratio - 1.0) / 20.0) * 10f64.powf(sp.p("makeup") / 20.0);
+								let e = a * 10f64.powf(env * comp_slope(ratio) / 20.0) * 10f64.powf(sp.p("makeup") / 20.0);
 								let t = 2e-3 * e.abs() + 1e-30;
 								if !close(m[i].left, e as f32, t) || !close(m[i].right, -e as f32, t) {
 									out.oracle_fail("comp_attack_curve", l);
@@ -1220,7 +1230,8 @@ fn gen_num(rng: &mut Rng, kind: &str, name: &str, sr: f64, ind: bool) -> f64 {
 			if !ind && rng.chance(2, 3) {
 				rng.pick(&[0.0, -1.0, -0.0, -4.0])
 			} else if rng.chance(1, 2) {
-				rng.pick(&[1.0, 2.0, 4.0, 8.0, 20.0, 0.5, 100.0, 1.5])
+				// 0 and -0: no reciprocal — the dynamics stay unchanged, like ratio 1 (in domain since the repair)
+				rng.pick(&[1.0, 2.0, 4.0, 8.0, 20.0, 0.5, 100.0, 1.5, 0.0, -0.0])
 			} else {
 				rng.uniform(0.5, 20.0)
 			}
@@ -1446,7 +1457,7 @@ fn gen_probe(rng: &mut Rng, case: usize, thorough: bool, stats: &mut Stats, out:
 			}
 			_ => {
 				let thr = rng.pick(&[-6.0, -12.0, -24.0, -30.0]);
-				let ratio = rng.pick(&[2.0, 4.0, 8.0, 1.0, 0.5, 20.0]);
+				let ratio = rng.pick(&[2.0, 4.0, 8.0, 1.0, 0.5, 20.0, 0.0]);
 				let att = rng.pick(&[0u64, 100_000, 1_000_000, 2_000_000]);
 				let rel = rng.pick(&[0u64, 100_000, 1_000_000, 2_000_000]);
 				let makeup = rng.pick(&[0.0, 6.0, -6.0]);
